@@ -20,6 +20,15 @@ type Case struct {
 	Set  []rsx.RouteSpec `json:"set"`
 	Prof rsx.Profile     `json:"prof"`
 	Reqs []rsx.Req       `json:"reqs"`
+	// ViaUpdate: every route was first registered with another handler and slash option, then replaced by Update
+	ViaUpdate bool `json:"via_update,omitempty"`
+}
+
+func build(set []rsx.RouteSpec, prof rsx.Profile, viaUpdate bool) (*rsx.Env, error) {
+	if viaUpdate {
+		return rsx.BuildViaUpdate(set, prof)
+	}
+	return rsx.Build(set, prof)
 }
 
 func serves(e *rsx.Env, method, host, path string) (bool, bool) {
@@ -250,7 +259,23 @@ func run(c *mc.Ctx, r *mc.Result) {
 		}
 	}
 	runSpecs(c, r, "space.infix", sp4, 3, requestsDepth([]string{""}, 3))
+	// routes that reached their final options through Update (from another trailing-slash option): infix and
+	// suffix catch-alls, parameters and static routes, with and without a trailing slash
+	var sp5 []rsx.RouteSpec
+	for _, p := range []string{"/a/*{x}/b", "/a/*{x}/b/", "/a/{p}/b", "/a/{p}/b/", "/*{w}/b", "/a/b", "/a/*{x}"} {
+		for _, m := range []string{"GET", "POST"} {
+			for _, sl := range []int{rsx.SlashNone, rsx.SlashIgnore} {
+				sp5 = append(sp5, rsx.RouteSpec{Method: m, Pattern: p, Slash: sl})
+			}
+		}
+	}
+	viaUpdate = true
+	runSpecs(c, r, "space.updated", sp5, 2, requestsDepth([]string{""}, 3))
+	viaUpdate = false
 }
+
+// viaUpdate selects BuildViaUpdate for the family being run (set by run only)
+var viaUpdate bool
 
 func runSpecs(c *mc.Ctx, r *mc.Result, name string, sp []rsx.RouteSpec, k int, rqs []rsx.Req) {
 	// second pass in reverse order: every request then follows a different predecessor on the
@@ -278,7 +303,7 @@ func runSpecs(c *mc.Ctx, r *mc.Result, name string, sp []rsx.RouteSpec, k int, r
 			set = append(set, sp[x])
 		}
 		for _, prof := range profs {
-			e, err := rsx.Build(set, prof)
+			e, err := build(set, prof, viaUpdate)
 			if err != nil {
 				r.Count("sets_rejected_by_router", 1)
 				return
@@ -295,7 +320,7 @@ func runSpecs(c *mc.Ctx, r *mc.Result, name string, sp []rsx.RouteSpec, k int, r
 					r.DistinctNontrivial++
 				}
 				if class != "" {
-					r.Violate("unserved", class, msg, Case{Set: set, Prof: prof, Reqs: seq[:qi+1]})
+					r.Violate("unserved", class, msg, Case{Set: set, Prof: prof, Reqs: seq[:qi+1], ViaUpdate: viaUpdate})
 				}
 			}
 		}
@@ -319,7 +344,7 @@ func replay(c *mc.Ctx, raw json.RawMessage) string {
 	if err := json.Unmarshal(raw, &cs); err != nil {
 		return "bad case: " + err.Error()
 	}
-	e, err := rsx.Build(cs.Set, cs.Prof)
+	e, err := build(cs.Set, cs.Prof, cs.ViaUpdate)
 	if err != nil {
 		return ""
 	}
